@@ -322,15 +322,18 @@ GMFP = {
         CMP + 'forall|m: Mv| m.0 == square_cords && #[trigger] legal_from(board, m, move_generation_mode) ==> has_move(final(new_moves)@, old(new_moves)@.len() as int, m)',
         CMP + 'distinct_moves(final(new_moves)@, old(new_moves)@.len() as int)',
     ],
-    'after_stmt': [
-        ('promote_pawn(', 0, PROMO_CMP), ('promote_pawn(', 0, PROMO_SOUND),
-        ('promote_pawn(', 1, PROMO_CMP), ('promote_pawn(', 1, PROMO_SOUND),
+    'block_end': [
         ('new_board.zobrist_key ^= zobrist_hasher.get_val_for_en_passant(en_passant_square.1)', 0, KEY + """proof {
                     let s = &new_board; let h = zobrist_hasher;
                     let e = h.ep(en_passant_square.1 as int);
                     lemma_key_component(kp(s, h), ks(s, h), kc1(s, h), kc2(s, h), kc3(s, h), kc4(s, h), 0u64, e);
                     assert(key_ok(s, h));
                 }"""),
+    ],
+    'after_stmt': [
+        ('promote_pawn(', 0, PROMO_CMP), ('promote_pawn(', 0, PROMO_SOUND),
+        ('promote_pawn(', 1, PROMO_CMP), ('promote_pawn(', 1, PROMO_SOUND),
+        
     ],
     'after_text': [
         ('if !is_check(&new_board, board.to_move) {', 0, SND + """proof {
@@ -521,6 +524,6 @@ P = ('C01', 'C02', 'C05', 'C13')
 
 def build(g):
     g.add(LEMMAS)
-    g.add(g.fn('move_generation', 'promote_pawn', PROMOTE, rewrites=[R2], props=P))
-    g.add(g.fn('move_generation', 'pawn_moves_en_passant', EP, props=P))
-    g.add(g.fn('move_generation', 'generate_moves_for_piece', GMFP, rewrites=[R1], props=P))
+    g.add(g.fn('move_generation', 'promote_pawn', PROMOTE, rewrites=[R2], props=P, own=('C01', 'C02', 'C13')))
+    g.add(g.fn('move_generation', 'pawn_moves_en_passant', EP, props=P, own=('C01', 'C13')))
+    g.add(g.fn('move_generation', 'generate_moves_for_piece', GMFP, rewrites=[R1], props=P, own=()))   # only tagged clauses are own obligations
